@@ -7,6 +7,7 @@
    - internal/file/der.go: parseDERData (trial order); internal/file/parsers.go: ASN1File,
      Base64ASN1File, PEMFile; internal/file/pem.go: parsePEMBlock;
    - internal/file/identifier.go: isBinaryASN1, IsBase64ASN1, IsMixedPEM;
+   - internal/file/info.go: the read limit of Inspect (MaxReadSize);
    - cmd/decipher/main.go: inspectFile / inspectStdin.
 
    crypto/x509.ParseCertificate, the attribute builders, the generic dump (parseASN1Data),
